@@ -10,6 +10,7 @@ try:
     u = U.build(name, cs, mode)
 except X.ExtractError as e:
     print('EXTRACT ERROR:', e); sys.exit(2)
+print('DEGRADED:', u.degraded) if u.degraded else None
 print('generated', u.path, 'verify:', len(u.verified_contracts), 'assume:', len(u.assumed_contracts), 'trusted:', len(u.trusted_contracts))
 if '--noverus' in sys.argv: sys.exit(0)
 extra = []
